@@ -67,6 +67,16 @@ def install(eng):
         db2 = any(e[0] == 'open' and e[1] == 'dir/Database2/m.db' for e in q.log)
         return (1 if legacy else 0) | (2 if db2 else 0)
     M['verif_dispatched'] = m_dispatched
+    # create_database replaced by a recorder (h_create_or_load, a C10 run): the call is counted, the schema it was asked for is kept and an empty
+    # database object (null implementation pointer) is returned through the sret slot
+    def m_create(st, a):
+        d = st.env.setdefault('c13', {}); d['created'] = d.get('created', 0) + 1
+        d['created_schema'] = eng.load(st, a[2], 4)
+        eng.store(st, a[0], 8, 0); eng.store(st, P(a[0].obj, a[0].off + 8), 8, 0)
+        return None
+    eng.model_prefixes.append(('_ZN9djinterop6engine15create_databaseERK', m_create))
+    M['verif_created'] = lambda st, a: g(st, 'created', 0)
+    M['verif_created_schema'] = lambda st, a: g(st, 'created_schema', E.mask(-1, 32))
 common.register_models('c13', install)
 
 def main():
